@@ -29,6 +29,7 @@ def fft_case(draw):
     name = draw(st.sampled_from(NAMES))
     rank = draw(st.integers(2 if name in TWO_D else 1, 3))
     shape = [draw(st.integers(1, 6)) for _ in range(rank)]
+    big = draw(st.integers(0, 11)) == 0
     dtype = draw(st.sampled_from(DTYPES))
     if name in REAL_IN and dtype in ("c8", "c16"):
         dtype = draw(st.sampled_from(["f4", "f8", "i2"]))
@@ -60,6 +61,13 @@ def fft_case(draw):
             kw["axes"] = axes
         if "s" not in kw and draw(st.integers(0, 2)) == 0:
             kw["s"] = [draw(st.integers(1, 7)) for _ in axes]
+    if big:
+        # a long transformed axis (power of two, prime, 7-smooth, > 2^16 now and then); the other axes stay short
+        shape[axes[-1] % rank] = draw(st.sampled_from([127, 128, 1000, 1021, 1024, 4096, 5003, 65537, 70000]))
+        if "n" in kw:
+            kw["n"] = draw(st.sampled_from([shape[axes[-1] % rank] - 1, shape[axes[-1] % rank] + 3, 1024]))
+        if "s" in kw:
+            kw["s"][-1] = draw(st.sampled_from([shape[axes[-1] % rank] - 1, shape[axes[-1] % rank] + 3, 512]))
     if name in ("irfft", "irfft2", "irfftn", "hfft") and "n" not in kw and "s" not in kw and shape[axes[-1] % rank] < 2:
         # default output length 2*(m-1) = 0: degenerate (the references disagree among themselves: irfft raises, irfft2 returns length 1)
         shape[axes[-1] % rank] = draw(st.integers(2, 6))
@@ -68,6 +76,11 @@ def fft_case(draw):
     # dask chunking off the transformed axes
     tr = set(a % rank for a in axes)
     chunks = [shape[i] if i in tr else draw(st.integers(1, shape[i])) for i in range(rank)]
+    if big:
+        for i in range(rank):
+            if i not in tr:
+                shape[i] = min(shape[i], 3)
+                chunks[i] = min(chunks[i], shape[i])
     return {"name": name, "shape": shape, "dtype": dtype, "kw": kw, "axes": axes, "chunks": chunks, "seed": draw(st.integers(0, 2**31 - 1))}
 
 
@@ -117,7 +130,7 @@ def run_fft(case, stt):
         ref_n = None  # numpy's own argument checking is stricter in a few degenerate cases (e.g. irfft2 of a (1,1) array)
         stt.label("numpy_reference_refuses")
     scale = max(float(np.max(np.abs(ref_s))) if ref_s.size else 0.0, 1e-30)
-    tol = (1e-4 if single else 1e-11) * scale
+    tol = (1e-4 if single else 1e-11) * scale * (1 + math.log2(max(max(case["shape"]), 2)) / 4)
     if ref_n is not None:
         check(ref_n.shape == y.shape, "harness: numpy reference shape {} vs {}", ref_n.shape, y.shape)
         err = float(np.max(np.abs(y - ref_n))) if y.size else 0.0
@@ -153,6 +166,7 @@ def run_fft(case, stt):
     stt.label("name_" + name)
     stt.label("dtype_" + case["dtype"])
     stt.label("rank_%d" % rank)
+    stt.label("long_axis" if max(case["shape"]) > 100 else "short_axes")
 
 
 def enum_names(tier, piece, npieces, stt, seed):
@@ -193,6 +207,10 @@ def replay_name(case, stt):
 @st.composite
 def stft_case(draw):
     spec = draw(G.signal_spec(classes=G.BASEBAND, nmin=1, nmax=48, nchan_max=4, max_trailing=1, data_kinds=("noise",), sr=G.freq_q(0, 9)))
+    if draw(st.integers(0, 19)) == 0:
+        spec["n"] = draw(st.sampled_from([1000, 4096, 5003, 70001]))
+        spec["sshape"] = spec["sshape"][:1] + ([2] if spec["cls"] == "DualPolarizationSignal" else [])
+        spec["sshape"][0] = min(spec["sshape"][0], 2)
     N = spec["n"]
     M = draw(st.one_of(st.integers(1, N), st.sampled_from([1, 2, 3, N, max(1, N // 2)])))
     M = min(M, N)
